@@ -9,7 +9,17 @@ NODES = []
 _TABLE = {}
 
 
+_UNWRAP_OR = ("std::option::Option::unwrap_or", "std::result::Result::unwrap_or")
+
+
 def mk(tag, payload=(), kids=()):
+    if tag == "call" and payload and payload[0] in _UNWRAP_OR and len(kids) == 2 and NODES[kids[0]][0] == "agg":
+        # decided once the Option/Result operand is known (also after call-site substitution)
+        var = NODES[kids[0]][1][1]
+        if var in ("Some", "Ok") and NODES[kids[0]][2]:
+            return NODES[kids[0]][2][0]
+        if var in ("None", "Err"):
+            return kids[1]
     key = (tag, payload, kids)
     i = _TABLE.get(key)
     if i is None:
